@@ -216,7 +216,7 @@ func runGated(t *testing.T, sc gSched, out *bufio.Writer) {
 	obs := func() {
 		synctest.Wait()
 		r.mu.Lock()
-		var st, enq, cmd, ok, fail []int
+		var st, enq, cmd, ok, fail, rok, rfail []int
 		for i := 0; i < n; i++ {
 			if r.started[i] > 0 {
 				st = append(st, i)
@@ -234,9 +234,21 @@ func runGated(t *testing.T, sc gSched, out *bufio.Writer) {
 				fail = append(fail, idx[l])
 			}
 		}
+		// the map Walk handed to its caller, as it is NOW.  The caller (cmds/build.go) reads it without any
+		// lock; the harness holds the walker's mutex only so that this observation itself is not a racing
+		// read on a tree where the returned map is still written (the bubble is quiescent anyway)
+		for l, c := range r.cm {
+			if c.IsSuccess {
+				rok = append(rok, idx[l])
+			} else {
+				rfail = append(rfail, idx[l])
+			}
+		}
 		w.doneMutex.Unlock()
 		sort.Ints(ok)
 		sort.Ints(fail)
+		sort.Ints(rok)
+		sort.Ints(rfail)
 		_ = cmd
 		ret, werr := 0, 0
 		if r.walkDone {
@@ -245,8 +257,8 @@ func runGated(t *testing.T, sc gSched, out *bufio.Writer) {
 				werr = 1
 			}
 		}
-		fmt.Fprintf(out, "obs S=%s Enq=%s B1=%s B2=%s Ok=%s Fail=%s ret=%d err=%d\n", ilist(st), ilist(enq),
-			ilist(keys(r.gateB1)), ilist(keys(r.gateB2)), ilist(ok), ilist(fail), ret, werr)
+		fmt.Fprintf(out, "obs S=%s Enq=%s B1=%s B2=%s Ok=%s Fail=%s ret=%d err=%d ROk=%s RFail=%s\n", ilist(st), ilist(enq),
+			ilist(keys(r.gateB1)), ilist(keys(r.gateB2)), ilist(ok), ilist(fail), ret, werr, ilist(rok), ilist(rfail))
 		r.mu.Unlock()
 	}
 
